@@ -583,8 +583,10 @@ class Reactor:
                 peer.remove()
 
         for key, neighbor in self.configuration.neighbors.items():
-            # new peer
-            if key not in self._peers:
+            # new peer - or one which a previous reload removed and whose task has not ended yet (a connection
+            # attempt can last a long time): that Peer is on its way out whatever it is told and is forgotten
+            # when it ends, so the neighbor which is back in the configuration needs a Peer of its own
+            if key not in self._peers or self._peers[key].removed():
                 log.debug(lazymsg('peer.adding name={name}', name=neighbor.name()), 'reactor')
                 peer = Peer(neighbor, self)
                 self._peers[key] = peer
